@@ -288,13 +288,19 @@ func (rule *RuleRunnerLabel) tryToGetLabelsInMatrix(label *String, m *Matrix) []
 }
 
 func (rule *RuleRunnerLabel) checkConflict(comp runnerOSCompat, label *String) bool {
+	// When multiple labels conflict with the label, report the first one in the source to make the
+	// error message deterministic
+	var conflict *String
 	for c, l := range rule.compats {
-		if c&comp == 0 {
-			rule.Errorf(label.Pos, "label %q conflicts with label %q defined at %s. note: to run your job on each workers, use matrix", label.Value, l.Value, l.Pos)
-			return false
+		if c&comp == 0 && (conflict == nil || l.Pos.IsBefore(conflict.Pos)) {
+			conflict = l
 		}
 	}
-	return true
+	if conflict == nil {
+		return true
+	}
+	rule.Errorf(label.Pos, "label %q conflicts with label %q defined at %s. note: to run your job on each workers, use matrix", label.Value, conflict.Value, conflict.Pos)
+	return false
 }
 
 func (rule *RuleRunnerLabel) checkCompat(comp runnerOSCompat, label *String) {
